@@ -139,7 +139,7 @@ def check_config(ctx, F, tag):
                         # and no mutation of data between the count and the aggregate
                     ctx.ob("C01.R3.cached-count", b.name + tag, loc(st["sp"]), ok, "term-provenance", "ones = count_ones() of the local that becomes data: %s" % ok)
     ctx.count("bitvector-aggregates" + tag, n)
-    ctx.floor("bitvector-aggregates" + tag, 3)
+    ctx.floor("bitvector-aggregates" + tag, 2)
     check_select_layout(ctx, F, tag)
     co = F.body("<bit_vector::BitVector as ops::BitVec<'a>>::count_ones")
     ctx.ob("C01.R3.count-ones-is-cached-field", co.name + tag, loc(co.raw["span"]), self_path(co.term_of_local(0)) == ["ones"], "term-shape", "count_ones() = %s" % tstr(co.term_of_local(0)), nontrivial=False)
